@@ -254,7 +254,8 @@ def histories(cell):
                 out.append({'msg': m, 'key': None, 'history': h})
         if len(out) >= 3:
             break
-    return {'v': out, 'n': n, 'states': n, 'transitions': n, 'traces': n, 'nt': cell if nt else None, 'obs': sorted(outcomes)}
+    return {'v': out, 'n': n, 'states': n, 'transitions': n, 'traces': n, 'nt': cell if nt else None, 'obs': sorted(outcomes),
+            'sample': {'last_history_of_this_cell': h, 'its_last_result': got[0], 'compared_with': 'same last op in a fresh world built with the same zero elevations / argument edits'}}
 
 
 def chain(cell):
